@@ -26,7 +26,7 @@ pub const INFO: PropInfo = PropInfo {
         "multipart bodies come from the harness' own RFC 7578 encoder (text fields only); the expected values are the encoder's inputs",
         "a media type in another letter case or with a suffix that merely starts with the extractor's type is grey",
     ],
-    expected_probes: &["c07.int_at_bound_accepted", "c07.int_beyond_bound_stopped", "c07.digits_plus_garbage_stopped", "c07.two_params", "c07.json_valid", "c07.json_invalid_stopped", "c07.content_type_mismatch_stopped", "c07.option_none_when_absent", "c07.param_after_param_on_same_connection", "c07.multipart_valid", "c07.query_valid", "c07.form_valid", "c07.text_non_utf8_stopped"],
+    expected_probes: &["c07.int_at_bound_accepted", "c07.int_beyond_bound_stopped", "c07.digits_plus_garbage_stopped", "c07.two_params", "c07.json_valid", "c07.json_invalid_stopped", "c07.content_type_mismatch_stopped", "c07.option_none_when_absent", "c07.param_after_param_on_same_connection", "c07.multipart_valid", "c07.query_valid", "c07.form_valid", "c07.text_non_utf8_stopped", "c07.body_cut_short_not_delivered"],
 };
 
 #[derive(Clone, Debug, Serialize, Deserialize)]
@@ -43,6 +43,10 @@ pub struct Req {
     pub what: String,
     /// what the handler must echo when it runs (None for grey inputs without a reference value)
     pub expect: Option<Value>,
+    /// fault: only this many bytes of the announced body are sent, then the client closes its sending side
+    /// (last request of its connection). The body the request announces never arrives: the handler must not run.
+    #[serde(default)]
+    pub cut_body_fin: Option<usize>,
 }
 #[derive(Clone, Debug, Serialize, Deserialize)]
 pub struct Scenario {
@@ -338,6 +342,7 @@ fn gen_req() -> Req {
         route: route.into(),
         what: what.into(),
         expect,
+        cut_body_fin: None,
     };
     match t::weighted(&[6, 3, 2, 3, 3, 2, 2, 2, 2, 2, 2]) {
         0 => {
@@ -494,7 +499,29 @@ fn gen_req() -> Req {
 
 pub fn generate(_cfg: &RunCfg, _out: &mut Outcome) -> Scenario {
     let n_conns = 1 + t::weighted(&[3, 1]);
-    Scenario { conns: (0..n_conns).map(|_| (0..t::range(2, 10)).map(|_| gen_req()).collect()).collect() }
+    let mut conns: Vec<Vec<Req>> = (0..n_conns).map(|_| (0..t::range(2, 10)).map(|_| gen_req()).collect()).collect();
+    for c in conns.iter_mut() {
+        // the peer goes away in the middle of the body of the last request; prefixes that are well-formed by themselves
+        // (text, the leading digits of a number, ...) are the interesting ones
+        if t::chance(1, 4) {
+            let mut last = match t::draw(3) {
+                0 => Req { method: "POST".into(), target: "/text".into(), content_type: Some("text/plain".into()), body: b"hello, truncated world".to_vec(), has_body: true, tag: "invalid".into(), route: "text".into(), what: "body-cut-short-then-fin".into(), expect: None, cut_body_fin: None },
+                1 => Req { method: "POST".into(), target: "/form".into(), content_type: Some("application/x-www-form-urlencoded".into()), body: b"a=abc&n=12345".to_vec(), has_body: true, tag: "invalid".into(), route: "form".into(), what: "body-cut-short-then-fin".into(), expect: None, cut_body_fin: None },
+                _ => {
+                    let mut r = gen_req();
+                    r.tag = "invalid".into();
+                    r.what = "body-cut-short-then-fin".into();
+                    r.expect = None;
+                    r
+                }
+            };
+            if last.has_body && last.body.len() >= 2 {
+                last.cut_body_fin = Some(match t::draw(3) { 0 => 0, 1 => last.body.len() - 1, _ => 1 + t::draw((last.body.len() - 1) as u32) as usize });
+                c.push(last);
+            }
+        }
+    }
+    Scenario { conns }
 }
 
 pub fn run(cfg: &RunCfg, direct: Option<&serde_json::Value>) -> Outcome {
@@ -543,9 +570,13 @@ fn execute(sc: &Scenario, out: &mut Outcome) {
                 head.push_str("\r\n");
                 let mut bytes = head.into_bytes();
                 if r.has_body {
-                    bytes.extend_from_slice(&r.body);
+                    bytes.extend_from_slice(&r.body[..r.cut_body_fin.unwrap_or(r.body.len()).min(r.body.len())]);
                 }
                 cl.send(&bytes, 0);
+                if r.cut_body_fin.is_some() {
+                    cl.send_fin(t::pick(&[0u64, 1, 40]) * simcore::MS);
+                    simcore::with(|w| w.count("fault.fin_inside_body"));
+                }
                 let resp = cl.recv(false, DEFAULT_TIMEOUT).await;
                 let ok = resp.is_ok();
                 o.borrow_mut()[ci].push(resp);
@@ -579,6 +610,12 @@ fn execute(sc: &Scenario, out: &mut Outcome) {
             let desc = format!("{} {} (route {}, {}, {}; Content-Type {:?}; body {:?})", r.method, r.target, r.route, r.tag, r.what, r.content_type, String::from_utf8_lossy(&r.body).chars().take(120).collect::<String>());
             let resp = match resp {
                 Ok(x) => x,
+                Err(RecvErr::Closed(_)) | Err(RecvErr::Reset(_)) if r.cut_body_fin.is_some() => {
+                    // a request that never arrived completely may be dropped without an answer (C02)
+                    out.probe("c07.body_cut_short_not_delivered");
+                    n_stopped += 1;
+                    continue;
+                }
                 Err(e) => {
                     out.violate("ran-or-error-response", format!("{}/{}/no-response", r.route, r.what), format!("{desc}: {}", format!("{e:?}").chars().take(100).collect::<String>()));
                     return;
